@@ -22,6 +22,7 @@ type Obligation struct {
 	Pos    string
 	Cover  bool // cover query: expected SAT (vacuity)
 	Inputs []InputVar
+	getv   []string
 }
 
 // InputVar describes a model value to extract for replay.
@@ -59,10 +60,20 @@ type State struct {
 	ctr    Term            // Int: allocation counter
 	ghosts map[string]Term
 	closedSeen map[string]bool
+	symHeaps   *symHeapRec
+}
+
+// symHeapRec records the heap sorts read by the body of a defined spec function.
+type symHeapRec struct{ sorts []string }
+
+type sfDef struct {
+	name      string
+	heapSorts []string
 }
 
 func (s *State) clone() *State {
 	n := &State{pc: s.pc, ctr: s.ctr, cells: make(map[cellKey]Val, len(s.cells)), heaps: make(map[string]Term, len(s.heaps)), ghosts: make(map[string]Term, len(s.ghosts)), closedSeen: make(map[string]bool, len(s.closedSeen))}
+	n.symHeaps = s.symHeaps
 	for k := range s.closedSeen {
 		n.closedSeen[k] = true
 	}
@@ -114,6 +125,8 @@ type Gen struct {
 	specDepth  int
 	absCache   map[string]Term
 	hasHeavy   bool
+	sfDefs     map[string]*sfDef
+	noDefine   int
 	callChain  string
 	stores     map[string]storeInfo
 	merges     map[string]mergeInfo
@@ -145,7 +158,8 @@ func (g *Gen) fresh(prefix, sort string) Term {
 }
 
 func (g *Gen) define(prefix string, t Term) Term {
-	if len(t.S) < 40 {
+	if len(t.S) < 40 || g.noDefine > 0 {
+		// under a quantifier binder terms may mention bound variables: never name them
 		return t
 	}
 	g.nfresh++
@@ -387,6 +401,28 @@ func (g *Gen) declareConst(name, sort string) {
 
 func (g *Gen) heap(st *State, sort string) Term {
 	if h, ok := st.heaps[sort]; ok {
+		return h
+	}
+	if st.symHeaps != nil {
+		// body of a defined spec function: heaps are formal parameters
+		es := sort
+		switch sort {
+		case "Held":
+			es = SBool
+		case "Avail":
+			es = bvSort(64)
+		}
+		h := T(arraySort(SLoc, es), "Hp_"+mangle(sort))
+		st.heaps[sort] = h
+		dup := false
+		for _, s := range st.symHeaps.sorts {
+			if s == sort {
+				dup = true
+			}
+		}
+		if !dup {
+			st.symHeaps.sorts = append(st.symHeaps.sorts, sort)
+		}
 		return h
 	}
 	// lazily create the initial heap for this sort (same for all states)
